@@ -1,0 +1,16 @@
+//go:build verif
+
+package client
+
+import (
+	"github.com/arm-doe/sts"
+)
+
+// Exports for the verification harness in /verif (build tag `verif` only).
+
+// VerifQueueRecovered builds the sts.Recovered value that recover() pushes into the send
+// queue: a recoverFile around `cached` with its announced predecessor and the ranges
+// still missing at the receiver (nil for a placeholder that is only queued for ordering).
+func VerifQueueRecovered(cached sts.Cached, prev string, left []*sts.ByteRange) sts.Recovered {
+	return &recoverFile{Cached: cached, prev: prev, left: left}
+}
